@@ -29,6 +29,7 @@ static void check_acc(const std::string& fn, const std::string& cell, double v, 
 }
 // permutation symmetry: the current code sorts its arguments (bit-identical results); an implementation that is symmetric up to rounding also satisfies the property
 static const double SYM_TOL = 1e-12;
+static double PHI_CAP = 1e300;
 static void check_rel(const std::string& fn, const std::string& clause, double a, double b, double floor_, double tol, const J& c) {
    double e = (vh::same_bits(a, b)) ? 0 : std::fabs(a - b) / std::max({std::fabs(a), std::fabs(b), floor_, 1e-300});
    if (std::isnan(a) != std::isnan(b)) e = std::numeric_limits<double>::quiet_NaN();
@@ -98,7 +99,13 @@ static void case_triple(vh::Rng& r) {
       // lambda^2 == 0 in double arithmetic: Phi returns 0 by design (its consequences are C11)
       const double l2d = gm2calc::lambda_2(p[0], p[1], p[2]);
       if (std::fabs(l2n) < 1e-13) out->count("Phi:lambda2-numerically-zero(skipped)");
-      else check_acc("Phi", cell, v, ref, 1e-3L * zmax, 1e-6, c, series ? "C02:Phi:small-ratio-series" : "C02:Phi:accuracy");
+      else {
+         // the known small-ratio series error is amplified by 1/lambda^2: its key is given up to err <= PHI_CAP / (lambda^2/z^2)^2 (calibration: see lib/thresholds.py)
+         const double e = relerr(v, ref, 1e-3L * zmax);
+         const bool known = series && e * l2n * l2n <= PHI_CAP;
+         if (series && !(e <= 1e-6)) out->cell("Phi|known-finding-magnitude err*(lambda2/z2)^2", e * l2n * l2n, nullptr);
+         check_acc("Phi", cell, v, ref, 1e-3L * zmax, 1e-6, c, known ? "C02:Phi:small-ratio-series" : "C02:Phi:accuracy");
+      }
       check_acc("lambda_2", "acc|" + mode, l2d, l2, 1e-3L * zmax * zmax, 1e-6, c, "C02:lambda_2:accuracy");
       // permutations: Phi sorts its arguments -> bit-exact; lambda_2 does not sort
       static const int perm[5][3] = {{0, 2, 1}, {1, 0, 2}, {1, 2, 0}, {2, 0, 1}, {2, 1, 0}};
@@ -156,8 +163,10 @@ static void case_dq(vh::Rng& r) {
    const std::string cell = "acc|" + mode + "|" + vh::decade(x) + "|ratio" + vh::decade(y / x);
    const double vp = gm2calc::FPZ(x, y), vs = gm2calc::FSZ(x, y);
    const bool eqq = x == y && std::fabs(x - 0.25) >= 1e-8 && std::fabs(x - 0.25) < 1e-6;   // equal-argument branch divides by (1 - 4x)
-   check_acc("FPZ", cell, vp, mpref_evaln(MPREF_FPZ, a), 1e-3L * tP, 1e-6, c, eqq ? "C02:FPZ:equal-arguments-near-1/4" : "C02:FPZ:accuracy");
-   check_acc("FSZ", cell, vs, mpref_evaln(MPREF_FSZ, a), 1e-3L * tS, 1e-6, c, eqq ? "C02:FSZ:equal-arguments-near-1/4" : "C02:FSZ:accuracy");
+   // (known finding at equal arguments near 1/4: errors up to 1.3e-4 over 1.6e6 cases; its key is given up to 2e-3)
+   { const LD rP = mpref_evaln(MPREF_FPZ, a), rS = mpref_evaln(MPREF_FSZ, a);
+     check_acc("FPZ", cell, vp, rP, 1e-3L * tP, 1e-6, c, (eqq && relerr(vp, rP, 1e-3L * tP) <= 2e-3) ? "C02:FPZ:equal-arguments-near-1/4" : "C02:FPZ:accuracy");
+     check_acc("FSZ", cell, vs, rS, 1e-3L * tS, 1e-6, c, (eqq && relerr(vs, rS, 1e-3L * tS) <= 2e-3) ? "C02:FSZ:equal-arguments-near-1/4" : "C02:FSZ:accuracy"); }
    check_rel("FPZ", "symmetry", vp, gm2calc::FPZ(y, x), 0, SYM_TOL, c);
    check_rel("FSZ", "symmetry", vs, gm2calc::FSZ(y, x), 0, SYM_TOL, c);
    // FCWl: f_CSl loses accuracy for arguments > 1e3 (C01 known finding): the lepton function is used with x, y <= 1
@@ -267,6 +276,7 @@ static void case_history(vh::Rng& r) {
 int main(int argc, char** argv) {
    vh::Args a(argc, argv);
    vh::Out o(a); out = &o;
+   PHI_CAP = a.getd("phicap", 1e-7);
    if (a.worker == 0 && a.only < 0) { o.cur = -1; zero_limits(); }
    for (long i = a.first(); i < a.last(); ++i) {
       o.cur = i;
